@@ -6,13 +6,11 @@
    the request is sent to, what is written (method, credential-named header lines, body bytes, framing lines) and two ghost
    fields (status that led to it, previous method).
 
-   Full statement of the first clause, as the property text has it:
-     forall chains, every request sent to a host h with ~ trusted init h carries none of the caller's six credential headers.
-   It is FALSE of the faithful model in two input classes (findings, see the two C20_no_credentials_off_domain_refuted theorems):
-     - host names with non-ASCII bytes (bytes.EqualFold folds U+017F / U+212A / ... onto ASCII letters);
-     - DisableNormalizing with a credential header spelled differently from the canonical name.
-   It is proved under exactly the guards that exclude them: ASCII host names, and [canon_keys] (which holds for every request whose
-   header keys were stored with normalizing enabled: C20_canon_when_normalizing). *)
+   The first clause is proved at full strength: for every chain, every host name (any bytes) and every spelling of the
+   credential headers (normalizing enabled, disabled, or disabled and enabled again).  The only side conditions say that host
+   names and header keys are byte strings (every element < 256) and tie the first request to the URL (init_agree, URI layer).
+   Three findings of this check (Unicode folding of host names; DisableNormalizing spellings; spellings kept after normalizing
+   was enabled again) were repaired in the code; their witnesses are Example C20_ex_repaired and stay in the harness corpus. *)
 From FH Require Import Model.Base Gen.GenC20 Model.Redirect Spec.RedirectSpec Proof.RedirectProof.
 Open Scope N_scope.
 
@@ -21,9 +19,9 @@ Open Scope N_scope.
 Theorem C20_no_credentials_off_domain : forall maxr url0 host0 ok0 uinfo0 r0 chain hops res,
   run maxr url0 host0 ok0 uinfo0 r0 chain = (hops, res) ->
   init_agree url0 host0 ->                                           (* URI layer: first request goes to the host of url0 *)
-  asciib (hostnameFromURLString url0) = true ->                      (* guard: ASCII host names *)
-  Forall (fun a => asciib (a_rhost a) = true) chain ->
-  canon_keys (r_dn r0) (r_h r0) ->                                   (* guard: credential headers stored under the canonical spelling *)
+  wf_bytes (hostnameFromURLString url0) ->                           (* host names are byte strings (every element < 256) *)
+  Forall (fun a => wf_bytes (a_rhost a)) chain ->
+  canon_keys (r_dn r0) (r_h r0) ->                                   (* header keys are byte strings *)
   forall hp, In hp hops -> ~ trusted (hostnameFromHostPortBytes host0) (h_host hp) -> s_sens (h_sent hp) = [].
 Proof. exact no_credentials_off_domain. Qed.
 Print Assumptions C20_no_credentials_off_domain.
@@ -33,39 +31,22 @@ Theorem C20_sensitive_names_are_the_six : forall k, is_sens_name k = is_credenti
 Proof. exact sens_is_credential. Qed.
 Print Assumptions C20_sensitive_names_are_the_six.
 
-(* the header guard holds whenever keys were stored with normalizing enabled (every key is a fixpoint of normalizeHeaderKey) *)
-Theorem C20_canon_when_normalizing : forall hs,
-  (forall kv, In kv hs -> wf_bytes (fst kv) /\ normKey false (fst kv) = fst kv) -> canon_keys false hs.
-Proof. exact canon_keys_normalized. Qed.
-Print Assumptions C20_canon_when_normalizing.
+(* canon_keys is nothing but well-formedness of the keys *)
+Theorem C20_canon_keys_is_wf : forall dn hs, canon_keys dn hs <-> (forall kv, In kv hs -> wf_bytes (fst kv)).
+Proof. intros dn hs. unfold canon_keys. tauto. Qed.
+Print Assumptions C20_canon_keys_is_wf.
 
-(* the two findings: the unguarded statement is false of the model *)
-Theorem C20_no_credentials_off_domain_refuted_unicode_fold :
-  let r0 := mkReq MethodGet [(HeaderAuthorization, s2b "secret")] false false 0%Z false 0%Z None in
-  let chain := [mkAns 302 (h "687474703a2f2f61c5bf6b2e636f6d2f78") (h "61c5bf6b2e636f6d") true] in
-  init_agree (s2b "http://ask.com/") (s2b "ask.com") /\ asciib (hostnameFromURLString (s2b "http://ask.com/")) = true /\
-  canon_keys (r_dn r0) (r_h r0) /\ leak 5 (s2b "http://ask.com/") (s2b "ask.com") None r0 chain.
-Proof. exact leak_unicode_fold. Qed.
-Print Assumptions C20_no_credentials_off_domain_refuted_unicode_fold.
-
-Theorem C20_no_credentials_off_domain_refuted_disable_normalizing :
-  let r0 := mkReq MethodGet [(s2b "authorization", s2b "secret")] true false 0%Z false 0%Z None in
-  let chain := [mkAns 302 (s2b "http://evil.com/x") (s2b "evil.com") true] in
-  init_agree (s2b "http://a.com/") (s2b "a.com") /\ asciib (hostnameFromURLString (s2b "http://a.com/")) = true /\
-  Forall (fun a => asciib (a_rhost a) = true) chain /\ leak 5 (s2b "http://a.com/") (s2b "a.com") None r0 chain.
-Proof. exact leak_disable_normalizing. Qed.
-Print Assumptions C20_no_credentials_off_domain_refuted_disable_normalizing.
-
-(* the trust rule only accepts the initial host and its subdomains — all ASCII byte strings, including an empty parent *)
+(* the trust rule only accepts the initial host and its subdomains — ALL byte strings, including an empty parent,
+   non-ASCII bytes and malformed UTF-8 *)
 Theorem isDomainOrSubdomain_sound : forall sub parent,
-  asciib sub = true -> asciib parent = true -> isDomainOrSubdomainBytes sub parent = true -> trusted parent sub.
-Proof. exact isDomainOrSubdomain_sound_ascii. Qed.
+  wf_bytes sub -> wf_bytes parent -> isDomainOrSubdomainBytes sub parent = true -> trusted parent sub.
+Proof. exact isDomainOrSubdomain_sound_all. Qed.
 Print Assumptions isDomainOrSubdomain_sound.
 
-Theorem isDomainOrSubdomain_sound_refuted :
-  exists sub parent, isDomainOrSubdomainBytes sub parent = true /\ ~ trusted parent sub.
-Proof. exact RedirectProof.isDomainOrSubdomain_sound_refuted. Qed.
-Print Assumptions isDomainOrSubdomain_sound_refuted.
+(* asciiEqualFold is exactly ASCII-case-insensitive equality *)
+Theorem C20_asciiEqualFold_exact : forall s t, wf_bytes s -> wf_bytes t -> (asciiEqualFold s t = true <-> lower s = lower t).
+Proof. exact asciiEqualFold_iff. Qed.
+Print Assumptions C20_asciiEqualFold_exact.
 
 (* (2) At most maxr redirects are followed: at most max(0,maxr)+1 requests; ErrTooManyRedirects comes after exactly that many;
    and a chain of more followable redirects than the budget does end in ErrTooManyRedirects. *)
@@ -115,6 +96,20 @@ Example C20_ex_leave_and_return :
   = [(s2b "a.com", s2b "POST", 2%nat, 3%Z, true); (s2b "sub.a.com", s2b "GET", 2%nat, 3%Z, true);
      (s2b "evil.com", s2b "GET", 0%nat, 3%Z, true); (s2b "a.com", s2b "GET", 0%nat, 0%Z, false)].
 Proof. vm_compute. reflexivity. Qed.
+
+(* the repaired findings stay repaired: U+017F look-alike not trusted; every spelling swept, normalizing disabled or re-enabled *)
+Example C20_ex_repaired :
+  isDomainOrSubdomainBytes (h "61c5bf6b2e636f6d") (s2b "ask.com") = false /\
+  isDomainOrSubdomainBytes (h "61732e4b2e636f6d") (s2b "as.k.com") = true /\
+  (let r0 := mkReq MethodGet [(s2b "authorization", s2b "secret"); (s2b "COOKIE2", s2b "x")] true false 0%Z false 0%Z None in
+   map (fun hp => length (s_sens (h_sent hp)))
+       (fst (run 5 (s2b "http://a.com/") (s2b "a.com") true None r0 [mkAns 302 (s2b "http://evil.com/x") (s2b "evil.com") true]))
+   = [2%nat; 0%nat]) /\
+  (let r0 := mkReq MethodGet [(s2b "authorization", s2b "secret")] false false 0%Z false 0%Z None in
+   map (fun hp => length (s_sens (h_sent hp)))
+       (fst (run 5 (s2b "http://a.com/") (s2b "a.com") true None r0 [mkAns 302 (s2b "http://evil.com/x") (s2b "evil.com") true]))
+   = [1%nat; 0%nat]).
+Proof. exact repaired_examples. Qed.
 
 Example C20_ex_lookalikes :
   map (fun s => isDomainOrSubdomainBytes (s2b s) (s2b "a.com"))
